@@ -40,8 +40,28 @@ T = {
  "struct.clone":"(() => { try { return typeof structuredClone(A); } catch (e) { return e.name; } })()",
 }
 
+# text outside ASCII and the BMP, lone surrogates, combining marks, case-mapping oddities: every string method, every cut position
+US = ["'a\\u{1D4B3}b'","'\\u{1D4B3}'","'\\uD835'","'\\uDCB3\\uD835'","'é\\u0301ß'","'\\u{1F600}\\u{1F601}'","'a\\u0000b'","'\\uFEFF x \\u2028'","'İıſ'","'ǆ'"]
+UT = ["s.slice(i, j)","s.substring(i, j)","s.substr(i, j)","s.charAt(i)","s.charCodeAt(i)","s.codePointAt(i)","s.at(i)","s[i]","s.indexOf(s.charAt(i), j)","s.lastIndexOf(s.charAt(i), j)",
+ "s.padStart(j + 4, s).length","s.padEnd(j + 4, s.charAt(i))","s.split('').length","s.split(s.charAt(i)).length","[...s].length","s.toUpperCase()","s.toLowerCase()","s.normalize('NFD').length","s.normalize('NFKC').length",
+ "s.repeat(j < 0 ? 0 : j).length","s.replace(s.charAt(i), '$&$`$\\'')","s.replaceAll(s.charAt(i) || 'q', '$$')","s.trim().length","s.startsWith(s.charAt(i), j)","s.endsWith(s.charAt(i), j)","s.includes(s.charAt(i), j)",
+ "s.localeCompare(s.charAt(i))","s.match(/./gu) && s.match(/./gu).length","s.match(/./g).length","s.search(/b/)","s.replace(/(.)/g, '$1$1').length","s.split(/(?:)/u).length","s.split(/(?:)/).length","/^.$/u.test(s)","/^.$/.test(s)",
+ "encodeURIComponent(s.slice(i, j))","JSON.stringify(s.slice(i, j))","JSON.parse(JSON.stringify(s)) === s","escape ? 1 : 0","s.concat(s).length","s.isWellFormed ? s.isWellFormed() : 0","s.toWellFormed ? s.toWellFormed().length : 0","String.fromCodePoint(s.codePointAt(i) || 0) === s.charAt(i)","s.length","Array.from(s).length","Object.keys(s).length","s.at(-1 - i)","s < s.charAt(i)","s + s.slice(i)","`${s}`.length","({[s]: 1})[s]","new Map([[s, 1]]).get(s)","s.charAt(i).codePointAt(0)", "s.slice(i).split('').reverse().join('')"]
 
-def programs(extra_date=True):
+# regular expressions: valid, invalid and pathological patterns x flag strings x every method that takes a RegExp
+RX_PAT = ["a","(a)(b)?","(?<n>a)\\\\k<n>","(?<=a)b","(?<!a)b","(?=a)a","(a)\\\\1","\\\\1(a)","[","(","a{2,1}","a{99999999}","(a*)*b","(a+)+$","\\\\p{L}+","\\\\u{1D4B3}","[\\\\u{1F600}-\\\\u{1F64F}]","^$","(?:)","\\\\b","\\\\B","[^]","[]","a|","|","(?<n>a)(?<n>b)","\\\\c","\\\\x","\\\\u","\\\\k<x>","(?i)a","a**","[b-a]","\\\\d{1,3}(?=(\\\\d{3})+$)",".",".*?","\\\\s+","[\\\\s\\\\S]","$^","(((((((((((a)))))))))))\\\\11","\\\\0","\\\\8","(?<a>.)(?<b>.)","\\\\ud835","\\\\/","a{,3}","x*"]
+RX_FLAGS = ["","g","gi","gu","gy","m","s","d","gd","y","u","v","gg","z","gimsuyd"]
+RX_SUBJ = ["'aab aab'","'a\\u{1D4B3}b'","''","'aaaaaaaaaaaaaaaaaaaaaaaaaaaaaaaaaaac'","'\\n a\\r\\nb'","'12345678'","'ABab'"]
+RX_METH = {"exec":"(() => { const m = r.exec(s); return m && [m.index, m.length, m[0], m.groups && Object.keys(m.groups).join(), r.lastIndex]; })()",
+ "exec2":"(() => { r.exec(s); const m = r.exec(s); return m && [m.index, m[0], r.lastIndex]; })()",
+ "test":"[r.test(s), r.lastIndex, r.test(s), r.lastIndex]","match":"s.match(r)","matchAll":"[...s.matchAll(r)].map(m => [m.index, m[0]])",
+ "replace":"s.replace(r, '[$&|$1|$<n>|$`]')","replaceFn":"s.replace(r, (...a) => '<' + a.length + '>')","replaceAll":"s.replaceAll(r, '-')","split":"s.split(r)","split2":"s.split(r, 2)","search":"s.search(r)",
+ "props":"[r.source, r.flags, r.global, r.sticky, r.unicode, r.hasIndices, String(r)]","lastIndex":"(() => { r.lastIndex = 3; const m = r.exec(s); return [m && m.index, r.lastIndex]; })()",
+ "lastIndexBig":"(() => { r.lastIndex = 2**40; const m = r.exec(s); return [m && m.index, r.lastIndex]; })()","lastIndexNeg":"(() => { r.lastIndex = -5; const m = r.exec(s); return [m && m.index, r.lastIndex]; })()",
+ "lastIndexMid":"(() => { r.lastIndex = 2; const m = r.exec('a\\u{1D4B3}\\u{1D4B3}b'); return [m && m.index, r.lastIndex]; })()"}
+
+
+def programs(tier="quick"):
     progs = []
     for name, t in T.items():
         if name == "arr.lengthSet":
@@ -62,4 +82,14 @@ def programs(extra_date=True):
                       "return out.join(';'); })()" % (",".join(DX), g, g, g)))
     progs.append(("date.utc7", "(() => { const X=[%s]; const out=[]; for (const A of X) for (const i of [0,1,2,3,4,5,6]) { "
                   "const a=[2000,0,1,0,0,0,0]; a[i]=A; out.push(String(Date.UTC(...a))); } return out.join(';'); })()" % ",".join(DX)))
+    for k, t in enumerate(UT):
+        progs.append(("text.%02d" % k, "(() => { const S = [%s]; const out = []; for (const s of S) for (const i of [0,1,2,3,-1]) "
+                      "for (const j of [0,1,2,3,5,-1]) { let r; try { r = %s; } catch (e) { r = 'thrown:' + (e && e.name); } "
+                      "out.push(JSON.stringify(r)); } return out.join(';'); })()" % (",".join(US), t)))
+    flags = RX_FLAGS[:6] if tier == "quick" else RX_FLAGS
+    for mn, mt in RX_METH.items():
+        progs.append(("regexp." + mn, "(() => { const P = [%s]; const F = [%s]; const S = [%s]; const out = []; for (const p of P) for (const f of F) "
+                      "{ for (const s of S) { let v; try { const r = new RegExp(p, f); v = %s; } catch (e) { v = 'thrown:' + (e && e.name); } "
+                      "out.push(JSON.stringify(v)); } } return out.join(';'); })()" % (
+                          ",".join('"%s"' % p for p in RX_PAT), ",".join('"%s"' % f for f in flags), ",".join(RX_SUBJ), mt)))
     return progs
